@@ -22,6 +22,7 @@ Viol(o) ==
   IN V(Len(ob.in_bits) = Len(fs), "harness-arity")
      \cup V(CtorOK(ob.truth_try, tt, ob.in_bits), "truth-try")
      \cup V(CtorOK(ob.budget_try, tb, ob.in_bits), "budget-try")
+     \cup V(ob.truth_try_lazy = ob.truth_try /\ ob.budget_try_lazy = ob.budget_try, "constructor-depends-on-the-iterator-kind")
      \cup V(CtorOK(ob.truth_new, New("truth", fs), ob.in_bits), "truth-new")
      \cup V(CtorOK(ob.budget_new, New("budget", fs), ob.in_bits), "budget-new")
      \cup V((ob.truth_new.r = "panic") <=> (ob.truth_try.r = "err"), "truth-panic-iff-err")
